@@ -22,8 +22,22 @@ def run(ctx):
     if res2 is not None:
         res2["oracle_fails"] = [f for f in res2["oracle_fails"] if f["check"] in ("no_halt", "no_hang")]
         fw.report_corr(ctx, "cl", res2)
+    # every other suite that drives real blocks reports a FinalizeBlock error / panic as `no_halt`: any such verdict is a
+    # violation of THIS property, whichever module's hook caused it (known ones are matched by their class features)
+    sizes = {"share": (12, 60), "da": (25, 150), "gauge": (2, 8), "mint": (2, 6), "govtally": (3, 10), "fee": (2, 6)}
+    for suite, (nq, nt) in sizes.items():
+        r = fw.corr(ctx, suite, nt if ctx.thorough() else nq, driver_suite=False, timeout=1500)
+        if r is None:
+            continue
+        r["oracle_fails"] = [f for f in r["oracle_fails"] if f["check"] in ("no_halt", "no_hang")]
+        fw.report_corr(ctx, suite, r, known_features=lambda f: {"suite_class": _halt_class(f)})
     if ctx.thorough() and ok:
         ctx.leanchecker(MODULES)
+
+
+def _halt_class(f):
+    m = re.search(r"class=(\S+)", f["detail"])
+    return m.group(1) if m else ""
 
 
 def replay(ctx, path):
